@@ -5,6 +5,8 @@ package c20
 
 import (
 	"fmt"
+	"math"
+	"math/bits"
 	"reflect"
 	"strconv"
 	"strings"
@@ -32,15 +34,19 @@ type T struct {
 	Key    *T     `json:"key,omitempty"`    // map key
 	Len    int    `json:"len,omitempty"`    // array length
 	Fields []T    `json:"fields,omitempty"` // struct
+	NF     int    `json:"nf,omitempty"`     // struct: number of fields when > len(Fields); Fields are then used cyclically
+	Name   string `json:"name,omitempty"`   // def: name of the defined type (types_test.go); ifaceM: error | stringer | sizer
 }
 
 type V struct {
-	Nil   bool `json:"nil,omitempty"`   // slice/map/ptr/iface
-	Len   int  `json:"len,omitempty"`   // string length
-	I     int  `json:"i,omitempty"`     // scalar payload / map-key ordinal
-	Elems []V  `json:"elems,omitempty"` // array/slice elements, struct fields, ptr pointee (1), map values, iface dynamic value (1), named parts
-	Keys  []V  `json:"keys,omitempty"`  // map keys (ordinal in I makes them distinct)
-	Dyn   *T   `json:"dyn,omitempty"`   // iface: dynamic type
+	Nil   bool   `json:"nil,omitempty"`   // slice/map/ptr/iface
+	Len   int    `json:"len,omitempty"`   // string length
+	I     int    `json:"i,omitempty"`     // scalar payload / map-key ordinal
+	Elems []V    `json:"elems,omitempty"` // array/slice elements, struct fields, ptr pointee (1), map values, iface dynamic value (1), named parts
+	Keys  []V    `json:"keys,omitempty"`  // map keys (ordinal in I makes them distinct)
+	Dyn   *T     `json:"dyn,omitempty"`   // iface / ifaceM: dynamic type
+	X     vk.U64 `json:"x,omitempty"`     // scalar: payload bits (0: the small payload I); map: mask applied to every scalar key leaf
+	Rep   int    `json:"rep,omitempty"`   // slice/map/array/struct: element count when > 0; Elems (and Keys) are then templates used cyclically
 }
 
 type Case struct {
@@ -50,13 +56,18 @@ type Case struct {
 	Class   string `json:"class,omitempty"`
 	Depth   int    `json:"stat_depth,omitempty"`
 	MaxItem int    `json:"stat_max_item,omitempty"`
+	Depth0  bool   `json:"stat_depth0,omitempty"` // Stat(v, 0, maxItem): the header line only
+	Opt     int    `json:"stat_opt,omitempty"`    // 0: no option argument, 1: Opt{}, 2: Opt{AvgOf}, 3: Opt{AvgOf, AvgUnit: 1/8}, 4: Opt{AvgOf, AvgUnit: 1}
+	AvgOf   int    `json:"stat_avg_of,omitempty"`
 }
 
 var checker = &vk.Checker[Case]{
 	ID: "C20",
-	Rule: "random acyclic (type, value) trees, depth <= 4, fan-out <= 4, built with reflect (StructOf, SliceOf, MapOf, ArrayOf, PtrTo): every scalar kind incl. int, uint, uintptr and complex; strings (incl. empty); arrays (len 0..3); slices and maps (nil / empty / non-empty; map keys string, ints, bool, small arrays/structs, interface{} holding a scalar or string; distinct by construction); " +
-		"pointers (nil / to a fresh value; a class with two pointers to one pointee); interface{} fields/elements (nil / holding any generated value); structs with 0..4 fields, hand-declared named structs with unexported fields, two different local struct types that print the same type name, and structs whose slices are overlapping views of one backing array; top-level nil. Oracle by construction: the builder returns the expected size (widths from a fixed 64-bit table, headers 16/24/8/8/16 once per string/slice/map/pointer/interface node, arrays/structs the plain sum). " +
-		"size.Of(v) == expected, no panic, and the number after the last ': ' on the first line of Stat(v, depth, maxItem) == expected. Grid: every scalar kind alone and inside a struct, slice, array, map value, pointer, interface. Non-trivial: a header-carrying kind nested inside another header-carrying kind. Distinct by hash of the case.",
+	Rule: "random acyclic (type, value) trees built with reflect (StructOf, SliceOf, MapOf, ArrayOf, PtrTo): every scalar kind incl. int, uint, uintptr and complex, half of the payloads full bit patterns (negative, huge, NaN, infinities, -0); strings (empty .. 4200 bytes, log-uniform above 12; ASCII, multi-byte, invalid UTF-8 and NUL content up to the last byte; half of them substrings at odd addresses); arrays (len 0..3, one in three log-uniform up to 96); slices and maps (nil / empty / 1..4 / one in three log-uniform up to the node budget of 3000 (thorough: 12000 for one case in eight), long ones from 1..5 element templates used cyclically so that only some elements are nil / empty / long); " +
+		"map keys of every comparable shape: strings, every scalar kind (bool, ints under a random mask, floats, complex), arrays and structs of keys, pointers (one nil), interface{} and method-carrying interfaces holding ten / six comparable dynamic types, defined types - distinct by construction (ordinal in every leaf, checked after building); " +
+		"pointers (nil / to a fresh value; a class with two pointers to one pointee); interface{} and error / fmt.Stringer / a local interface as field and element types (nil / holding any generated value resp. one of 8 implementing types incl. typed nil pointers); 32 defined types (every scalar kind, time.Duration, string, slices, map, array, pointer, interface, struct; some with methods); structs with 0..4 fields or (one in three) up to 48 fields, hand-declared named structs with unexported fields, structs with embedded fields (a struct, a nil / non-nil pointer to a struct beside a shadowing field, two levels, an interface, a defined string, a blank field), two different local struct types that print the same type name, and structs whose slices are overlapping views of one backing array; one case in ten a spine of 5..40 (thorough 100) nested pointers / slices / arrays / structs / map values / interfaces; top-level nil. " +
+		"Oracle by construction: the builder returns the expected size (widths from a fixed 64-bit table, headers 16/24/8/8/16 once per string/slice/map/pointer/interface node, arrays/structs the plain sum). " +
+		"size.Of(v) == expected, no panic, and the size on the first line of Stat(v, depth, maxItem[, Opt]) == expected: depth 0 (header line alone) or positive, maxItem positive, no option / Opt{} (number after the last ': ') / Opt{AvgOf > 0} with AvgUnit 0, 1/8 or 1 (first token after the last ': '; the average behind it is not judged). Grid: every scalar kind alone and inside a struct, slice, array, map value, pointer, interface, each with every Stat argument shape; 16 payload patterns per kind; every key shape; every defined type and interface implementation in every position; sweeps over 2^k-1, 2^k, 2^k+1 and two or three (thorough: six to ten) seed-dependent sizes per octave for slice lengths (to 2^13, thorough 2^17; 12 element types), array lengths (to 1100), field counts (to 300), map sizes (to 2^10, thorough 2^12; 12 key types), string lengths (to 2^14, thorough 2^17) and 5..64 (thorough 200) nesting levels per wrapper kind. Non-trivial: a header-carrying kind nested inside another header-carrying kind. Distinct by hash of the case.",
 	Check:    check,
 	Classify: classify,
 }
@@ -132,6 +143,18 @@ func mkRecB(v V) (reflect.Value, int) {
 
 func isScalar(k string) bool { _, ok := scalarWidth[k]; return ok }
 
+// fieldsOf expands the field list of a struct type (NF fields, the listed ones used cyclically).
+func fieldsOf(t T) []T {
+	if t.NF <= len(t.Fields) || len(t.Fields) == 0 {
+		return t.Fields
+	}
+	fs := make([]T, t.NF)
+	for i := range fs {
+		fs[i] = t.Fields[i%len(t.Fields)]
+	}
+	return fs
+}
+
 func goType(t T) reflect.Type {
 	switch t.K {
 	case "string":
@@ -146,10 +169,25 @@ func goType(t T) reflect.Type {
 		return reflect.PtrTo(goType(*t.Elem))
 	case "iface":
 		return ifaceType
+	case "ifaceM":
+		return mifaces[t.Name]
+	case "def":
+		return defs[t.Name].rt
 	case "struct":
-		fs := make([]reflect.StructField, len(t.Fields))
-		for i, f := range t.Fields {
-			fs[i] = reflect.StructField{Name: "F" + strconv.Itoa(i), Type: goType(f)}
+		tf := fieldsOf(t)
+		fs := make([]reflect.StructField, len(tf))
+		memo := map[int]reflect.Type{}
+		for i, f := range tf {
+			j := i
+			if len(t.Fields) > 0 {
+				j = i % len(t.Fields)
+			}
+			ft, ok := memo[j]
+			if !ok {
+				ft = goType(f)
+				memo[j] = ft
+			}
+			fs[i] = reflect.StructField{Name: "F" + strconv.Itoa(i), Type: ft}
 		}
 		return reflect.StructOf(fs)
 	case "overlap":
@@ -162,6 +200,8 @@ func goType(t T) reflect.Type {
 	case "recB":
 		v, _ := mkRecB(V{})
 		return v.Type()
+	case "embV", "embP", "embD", "embI":
+		return embType(t.K)
 	case "named1":
 		return reflect.TypeOf(named1{})
 	case "named2":
@@ -173,44 +213,113 @@ func goType(t T) reflect.Type {
 	return scalarType[t.K]
 }
 
+// elemV is the i-th element / field value: the listed ones, used cyclically when Rep says there are more.
 func elemV(v V, i int) V {
 	if i < len(v.Elems) {
 		return v.Elems[i]
 	}
+	if v.Rep > 0 && len(v.Elems) > 0 {
+		return v.Elems[i%len(v.Elems)]
+	}
 	return V{}
 }
 
-// padString extends s to n bytes with a filler chosen by k: ASCII, multi-byte UTF-8 sequences (2, 3 and 4
-// bytes, possibly cut in the middle), invalid UTF-8 and NUL bytes - a string's size is its BYTES.
-func padString(s string, n, k int) string {
-	fill := []string{"x", "\u00e9", "\u4e2d\u6587", "\U0001F600", "\x00", "\xff\x80", "a\u00e9\x00\U0001F601"}[k%7]
-	for len(s) < n {
-		s += fill
+func keyV(v V, i int) V {
+	if len(v.Keys) == 0 {
+		return V{}
 	}
-	if len(s) > n && n >= 4 {
-		s = s[:n]
+	return v.Keys[i%len(v.Keys)]
+}
+
+// count is the number of elements of a slice value / entries of a map value.
+func count(v V, listed int) int {
+	if v.Rep > 0 {
+		return v.Rep
+	}
+	return listed
+}
+
+var fillers = []string{"x", "é", "中文", "\U0001F600", "\x00", "\xff\x80", "aé\x00\U0001F601"}
+
+// mkString makes a string of exactly n bytes: an ASCII prefix (three times out of four) followed by a
+// filler chosen by k: ASCII, multi-byte UTF-8 sequences (2, 3 and 4 bytes, possibly cut in the middle),
+// invalid UTF-8 and NUL bytes - a string's size is its BYTES. Half of them are substrings of a larger
+// buffer at an odd address (vk.OddString).
+func mkString(prefix string, n, k int) string {
+	if k < 0 {
+		k = -(k + 1)
+	}
+	fill := fillers[k%7]
+	var b strings.Builder
+	b.Grow(n + 8)
+	b.WriteString(prefix)
+	for b.Len() < n {
+		b.WriteString(fill)
+	}
+	s := b.String()[:max(n, len(prefix))]
+	if k%2 == 1 {
+		s = vk.OddString(s, uint64(k)*31+uint64(n))
 	}
 	return s
 }
 
+func setScalar(out reflect.Value, k string, v V) {
+	x := uint64(v.X)
+	if x == 0 {
+		switch k {
+		case "bool":
+			out.SetBool(v.I%2 == 1)
+		case "int", "int8", "int16", "int32", "int64":
+			out.SetInt(int64(v.I % 100))
+		case "uint", "uint8", "uint16", "uint32", "uint64", "uintptr":
+			out.SetUint(uint64(v.I % 100))
+		case "float32", "float64":
+			out.SetFloat(float64(v.I) / 2)
+		default:
+			out.SetComplex(complex(float64(v.I), 1))
+		}
+		return
+	}
+	// payload bits: negative, huge, NaN, infinities, -0 ... (narrow kinds keep the low bits)
+	switch k {
+	case "bool":
+		out.SetBool(x&1 == 1)
+	case "int", "int8", "int16", "int32", "int64":
+		out.SetInt(int64(x))
+	case "uint", "uint8", "uint16", "uint32", "uint64", "uintptr":
+		out.SetUint(x)
+	case "float64":
+		out.SetFloat(math.Float64frombits(x))
+	case "float32":
+		out.SetFloat(float64(math.Float32frombits(uint32(x >> 32))))
+	case "complex128":
+		out.SetComplex(complex(math.Float64frombits(x), math.Float64frombits(vk.Mix(x))))
+	default:
+		out.SetComplex(complex(float64(math.Float32frombits(uint32(x>>32))), float64(math.Float32frombits(uint32(x)))))
+	}
+}
+
 // build makes the value and computes its expected structural size.
-func build(t T, v V) (reflect.Value, int) {
-	rt := goType(t)
+func build(t T, v V) (reflect.Value, int) { return buildRT(t, goType(t), v) }
+
+func buildRT(t T, rt reflect.Type, v V) (reflect.Value, int) {
 	out := reflect.New(rt).Elem()
 	switch t.K {
 	case "string":
 		n := max(v.Len, 0)
-		s := fmt.Sprintf("k%03d", v.I)
-		if n < len(s) && v.I == 0 {
-			s = s[:n]
+		p := ""
+		if v.I%4 != 0 {
+			p = fmt.Sprintf("k%03d", v.I)
+			p = p[:min(len(p), n)]
 		}
-		s = padString(s, n, v.I)
+		s := mkString(p, n, v.I)
 		out.SetString(s)
 		return out, 16 + len(s)
 	case "array":
 		sum := 0
+		et := rt.Elem()
 		for i := 0; i < t.Len; i++ {
-			e, sz := build(*t.Elem, elemV(v, i))
+			e, sz := buildRT(*t.Elem, et, elemV(v, i))
 			out.Index(i).Set(e)
 			sum += sz
 		}
@@ -219,10 +328,12 @@ func build(t T, v V) (reflect.Value, int) {
 		if v.Nil {
 			return out, 24
 		}
-		sl := reflect.MakeSlice(rt, len(v.Elems), len(v.Elems)+v.I%3)
+		n := count(v, len(v.Elems))
+		sl := reflect.MakeSlice(rt, n, n+v.I%3)
 		sum := 24
-		for i := range v.Elems {
-			e, sz := build(*t.Elem, v.Elems[i])
+		et := rt.Elem()
+		for i := 0; i < n; i++ {
+			e, sz := buildRT(*t.Elem, et, elemV(v, i))
 			sl.Index(i).Set(e)
 			sum += sz
 		}
@@ -234,13 +345,16 @@ func build(t T, v V) (reflect.Value, int) {
 		}
 		m := reflect.MakeMap(rt)
 		sum := 8
-		for i := range v.Keys {
-			kv := v.Keys[i]
-			kv.I = i // ordinal: keys are distinct by construction
-			k, ksz := buildKey(*t.Key, kv, i)
-			e, esz := build(*t.Elem, elemV(v, i))
+		n := count(v, len(v.Keys))
+		kt, et := rt.Key(), rt.Elem()
+		for i := 0; i < n; i++ {
+			k, ksz := buildKey(*t.Key, kt, keyV(v, i), i, uint64(v.X)) // ordinal i: keys are distinct by construction
+			e, esz := buildRT(*t.Elem, et, elemV(v, i))
 			m.SetMapIndex(k, e)
 			sum += ksz + esz
+		}
+		if m.Len() != n {
+			panic(fmt.Sprintf("c20 harness: %d map keys of type %s are not distinct (%d entries)", n, kt, m.Len()))
 		}
 		out.Set(m)
 		return out, sum
@@ -248,7 +362,7 @@ func build(t T, v V) (reflect.Value, int) {
 		if v.Nil {
 			return out, 8
 		}
-		e, sz := build(*t.Elem, elemV(v, 0))
+		e, sz := buildRT(*t.Elem, rt.Elem(), elemV(v, 0))
 		p := reflect.New(e.Type())
 		p.Elem().Set(e)
 		out.Set(p)
@@ -258,12 +372,30 @@ func build(t T, v V) (reflect.Value, int) {
 			return out, 16
 		}
 		e, sz := build(*v.Dyn, elemV(v, 0))
+		if e.Kind() == reflect.Interface { // an interface holds a concrete value, never an interface
+			return out, 16
+		}
 		out.Set(e)
 		return out, 16 + sz
+	case "ifaceM":
+		if v.Nil || v.Dyn == nil {
+			return out, 16
+		}
+		dt := goType(*v.Dyn)
+		if dt.Kind() == reflect.Interface || !dt.Implements(rt) {
+			return out, 16
+		}
+		e, sz := buildRT(*v.Dyn, dt, elemV(v, 0))
+		out.Set(e)
+		return out, 16 + sz
+	case "def":
+		d := defs[t.Name]
+		e, sz := buildRT(d.under, d.urt, v)
+		return e.Convert(rt), sz
 	case "struct":
 		sum := 0
-		for i, f := range t.Fields {
-			e, sz := build(f, elemV(v, i))
+		for i, f := range fieldsOf(t) {
+			e, sz := buildRT(f, rt.Field(i).Type, elemV(v, i))
 			out.Field(i).Set(e)
 			sum += sz
 		}
@@ -289,6 +421,8 @@ func build(t T, v V) (reflect.Value, int) {
 		return mkRecA(v)
 	case "recB":
 		return mkRecB(v)
+	case "embV", "embP", "embD", "embI":
+		return mkEmb(t.K, v)
 	case "named1":
 		n := named1{a: int32(v.I), b: strings.Repeat("b", max(v.Len, 0))}
 		sum := 4 + 16 + len(n.b)
@@ -333,68 +467,143 @@ func build(t T, v V) (reflect.Value, int) {
 		out.Field(1).Set(p)
 		return out, 2 * (8 + sz) // the structural definition counts the pointee once per pointer
 	}
-	// scalars
+	setScalar(out, t.K, v)
+	return out, scalarWidth[t.K]
+}
+
+// buildKey builds the i-th key of a map. Every scalar and string leaf of the key carries the ordinal i
+// (scalars: i changed by one mask that is the same for all keys of the map, so negative, huge and
+// fractional keys occur and stay distinct; strings: the prefix "k<i>" followed by a filler that never
+// starts with a digit); pointers are fresh, hence distinct; an interface holds a comparable type chosen
+// by the ordinal. keyCap says how many ordinals a key type can tell apart; generators stay below it and
+// build panics (harness error, not a verdict) if two keys collide all the same.
+func buildKey(t T, rt reflect.Type, v V, i int, mask uint64) (reflect.Value, int) {
+	out := reflect.New(rt).Elem()
+	switch t.K {
+	case "string":
+		s := mkString("k"+strconv.Itoa(i), max(v.Len, 0), v.I)
+		out.SetString(s)
+		return out, 16 + len(s)
+	case "array":
+		sum := 0
+		for j := 0; j < t.Len; j++ {
+			e, sz := buildKey(*t.Elem, rt.Elem(), elemV(v, j), i, mask)
+			out.Index(j).Set(e)
+			sum += sz
+		}
+		return out, sum
+	case "struct":
+		sum := 0
+		for j, f := range fieldsOf(t) {
+			e, sz := buildKey(f, rt.Field(j).Type, elemV(v, j), i, mask)
+			out.Field(j).Set(e)
+			sum += sz
+		}
+		return out, sum
+	case "ptr":
+		if v.Nil && i == 0 {
+			return out, 8
+		}
+		e, sz := buildRT(*t.Elem, rt.Elem(), elemV(v, 0))
+		p := reflect.New(rt.Elem())
+		p.Elem().Set(e)
+		out.Set(p)
+		return out, 8 + sz
+	case "iface":
+		d := keyDyns[(i+max(v.I, 0))%len(keyDyns)]
+		e, sz := buildKey(d, goType(d), V{I: v.I, Len: v.Len}, i, mask)
+		out.Set(e)
+		return out, 16 + sz
+	case "ifaceM":
+		d := implTs[(i+max(v.I, 0))%nCmpImpls]
+		e, sz := buildKey(d, goType(d), V{I: v.I, Len: v.Len, Elems: []V{{I: v.I, Len: v.Len}}}, i, mask)
+		out.Set(e)
+		return out, 16 + sz
+	case "def":
+		d := defs[t.Name]
+		e, sz := buildKey(d.under, d.urt, v, i, mask)
+		return e.Convert(rt), sz
+	case "embV", "embP":
+		return mkEmb(t.K, V{I: i, Len: v.Len}) // the ordinal is in the (promoted resp. shadowing) field A
+	}
+	f := float64(i + 1)
+	switch mask % 4 {
+	case 1:
+		f = -f
+	case 2:
+		f /= 2
+	case 3:
+		f *= 1 << 40
+	}
 	switch t.K {
 	case "bool":
-		out.SetBool(v.I%2 == 1)
+		out.SetBool(i%2 == 1)
 	case "int", "int8", "int16", "int32", "int64":
-		out.SetInt(int64(v.I % 100))
+		out.SetInt(int64(uint64(i) ^ mask))
 	case "uint", "uint8", "uint16", "uint32", "uint64", "uintptr":
-		out.SetUint(uint64(v.I % 100))
+		out.SetUint(uint64(i) ^ mask)
 	case "float32", "float64":
-		out.SetFloat(float64(v.I) / 2)
+		if (mask>>2)&1 == 1 && i%3 == 0 {
+			f = math.NaN() // a NaN key equals no key (not even itself): always a distinct entry, found by iteration only
+		}
+		out.SetFloat(f)
+	case "complex64", "complex128":
+		if (mask>>2)&1 == 1 && i%3 == 0 {
+			out.SetComplex(complex(math.NaN(), -f))
+			break
+		}
+		out.SetComplex(complex(f, -f))
 	default:
-		out.SetComplex(complex(float64(v.I), 1))
+		panic("c20 harness: not a key kind: " + t.K)
 	}
 	return out, scalarWidth[t.K]
 }
 
-// buildKey builds the i-th map key; the ordinal makes keys distinct.
-func buildKey(t T, v V, i int) (reflect.Value, int) {
+// keyCap is the number of distinct keys buildKey can make of a key type.
+func keyCap(t T) int {
 	switch t.K {
 	case "bool":
-		out := reflect.New(scalarType["bool"]).Elem()
-		out.SetBool(i%2 == 1)
-		return out, 1
-	case "iface":
-		// interface{} key holding an int or a string, alternating
-		out := reflect.New(ifaceType).Elem()
-		if i%2 == 0 {
-			out.Set(reflect.ValueOf(i))
-			return out, 16 + 8
+		return 2
+	case "int8", "uint8", "embP": // (embP: the ordinal is in its int8 field)
+		return 200
+	case "int16", "uint16":
+		return 60000
+	case "float32", "complex64":
+		return 1 << 20
+	case "array":
+		if t.Len == 0 {
+			return 1
 		}
-		s := fmt.Sprintf("ik%d", i)
-		out.Set(reflect.ValueOf(s))
-		return out, 16 + 16 + len(s)
-	case "array": // [2]int16 with the ordinal in element 0
-		out := reflect.New(goType(t)).Elem()
-		out.Index(0).SetInt(int64(i))
-		return out, 4
-	case "struct": // struct{F0 int32; F1 string}
-		out := reflect.New(goType(t)).Elem()
-		out.Field(0).SetInt(int64(i))
-		s := padString("", v.Len%5+4*(i%2), i)[:v.Len%5]
-		out.Field(1).SetString(s)
-		return out, 4 + 16 + len(s)
-	case "string":
-		v.I = i
-		if v.Len < 4 {
-			v.Len = 4
+		return keyCap(*t.Elem)
+	case "struct":
+		c := 1
+		for _, f := range t.Fields {
+			c = max(c, keyCap(f))
 		}
-		return build(t, v)
+		return c
+	case "def":
+		return keyCap(defs[t.Name].under)
+	case "ptr":
+		if goType(*t.Elem).Size() == 0 {
+			return 1 // pointers to zero-size values (*struct{}, *[0]T) may all be equal
+		}
 	}
-	v.I = i
-	return build(t, v)
+	return 1 << 30
 }
 
-func maxKeys(t T) int {
-	if t.K == "bool" {
-		return 2
+func statOpts(c Case) []interface{} {
+	n := max(c.AvgOf, 1)
+	switch c.Opt {
+	case 1:
+		return []interface{}{size.Opt{}}
+	case 2:
+		return []interface{}{size.Opt{AvgOf: n}}
+	case 3:
+		return []interface{}{size.Opt{AvgOf: n, AvgUnit: 1.0 / 8}}
+	case 4:
+		return []interface{}{size.Opt{AvgOf: n, AvgUnit: 1}}
 	}
-	if t.K == "int8" || t.K == "uint8" {
-		return 4
-	}
-	return 4
+	return nil
 }
 
 func check(c Case) *vk.Failure {
@@ -414,17 +623,28 @@ func check(c Case) *vk.Failure {
 	if len(typ) > 300 {
 		typ = typ[:300] + "..."
 	}
+	vs := fmt.Sprintf("%+v", c.V)
+	if len(vs) > 1500 {
+		vs = vs[:1500] + "..."
+	}
 	var got int
 	if f := vk.Try(fmt.Sprintf("size.Of(value of type %s)", typ), func() { got = size.Of(arg) }); f != nil {
 		f.Kind = "of-panic"
 		return f
 	}
 	if got != want {
-		return vk.Failf("of", "size.Of(%s value %+v) = %d, want %d", typ, c.V, got, want)
+		return vk.Failf("of", "size.Of(%s value %s) = %d, want %d", typ, vs, got, want)
 	}
 	var st string
-	depth, maxItem := max(c.Depth, 1), max(c.MaxItem, 1) // positive bounds only (what callers pass; <= 0 is undefined)
-	if f := vk.Try(fmt.Sprintf("size.Stat(value of type %s, %d, %d)", typ, depth, maxItem), func() { st = size.Stat(arg, depth, maxItem) }); f != nil {
+	// depth: positive, or 0 (the library documents it in code: the header line alone); maxItem positive
+	// (what callers pass; negative bounds are undefined). The option argument changes what follows the
+	// number on the first line (an average), not the number.
+	depth, maxItem := max(c.Depth, 1), max(c.MaxItem, 1)
+	if c.Depth0 {
+		depth = 0
+	}
+	opts := statOpts(c)
+	if f := vk.Try(fmt.Sprintf("size.Stat(value of type %s, %d, %d, %+v)", typ, depth, maxItem, opts), func() { st = size.Stat(arg, depth, maxItem, opts...) }); f != nil {
 		f.Kind = "stat-panic"
 		return f
 	}
@@ -433,130 +653,248 @@ func check(c Case) *vk.Failure {
 	if k < 0 {
 		return vk.Failf("stat-format", "first line of Stat has no ': ': %q", first)
 	}
-	n, err := strconv.Atoi(strings.TrimSpace(first[k+2:]))
+	num := strings.TrimSpace(first[k+2:])
+	if c.Opt >= 2 {
+		// "<type>: <size> /n = <average>": the size is the first token after the last ": "
+		if f := strings.Fields(num); len(f) > 0 {
+			num = f[0]
+		}
+	}
+	n, err := strconv.Atoi(num)
 	if err != nil {
-		return vk.Failf("stat-format", "first line of Stat does not end in a number: %q", first)
+		return vk.Failf("stat-format", "first line of Stat(depth %d, maxItem %d, opts %+v) does not carry the size as a number after its last ': ': %q", depth, maxItem, opts, first)
 	}
 	if n != want {
-		return vk.Failf("stat", "first line of Stat(%s value) reports %d, want %d (line %q)", typ, n, want, first)
+		return vk.Failf("stat", "first line of Stat(%s value, %d, %d, %+v) reports %d, want %d (line %q)", typ, depth, maxItem, opts, n, want, first)
 	}
 	return nil
 }
 
-func header(k string) bool {
-	switch k {
-	case "string", "slice", "map", "ptr", "iface", "named1", "named2", "shared", "recA", "recB", "overlap":
+func header(t T) bool {
+	switch t.K {
+	case "string", "slice", "map", "ptr", "iface", "ifaceM", "named1", "named2", "shared", "recA", "recB", "overlap", "embV", "embP", "embD", "embI":
 		return true
+	case "def":
+		return header(defs[t.Name].under)
 	}
 	return false
 }
 
-// nested reports whether a header-carrying node sits (non-nil) inside another one.
-func nested(t T, v V, inside bool) bool {
-	h := header(t.K)
-	if h && inside {
-		return true
-	}
-	switch t.K {
-	case "array", "struct":
-		for i := range v.Elems {
-			var et T
-			if t.K == "array" {
-				et = *t.Elem
-			} else if i < len(t.Fields) {
-				et = t.Fields[i]
-			} else {
-				continue
-			}
-			if nested(et, v.Elems[i], inside) {
-				return true
-			}
-		}
-	case "slice", "ptr", "shared":
-		if v.Nil {
-			return false
-		}
-		for i := range v.Elems {
-			if nested(*t.Elem, v.Elems[i], true) {
-				return true
-			}
-		}
-	case "map":
-		if v.Nil {
-			return false
-		}
-		if len(v.Keys) > 0 && (header(t.Key.K) || header(t.Elem.K)) {
-			return true
-		}
-	case "iface":
-		if !v.Nil && v.Dyn != nil {
-			return nested(*v.Dyn, elemV(v, 0), true)
-		}
-	case "named1", "named2", "recA", "recB", "overlap":
-		return true
-	}
-	return false
+// info is what classify learns from one walk over the case (templates only: cost is bounded by the
+// encoded size of the case, not by the size of the value).
+type info struct {
+	seen                                            map[string]bool
+	nested                                          bool // a header-carrying node sits inside another (non-nil, non-empty) one
+	slice, mapN, array, fields, str, depth, payload int
+	mixed                                           bool
 }
 
-func kinds(t T, v V, seen map[string]bool) {
-	seen[t.K] = true
+func (in *info) walk(t T, v V, inside bool, d int) {
+	in.seen[t.K] = true
+	in.depth = max(in.depth, d)
+	if header(t) && inside {
+		in.nested = true
+	}
 	switch t.K {
-	case "array", "slice", "ptr", "shared":
-		kinds(*t.Elem, elemV(v, 0), seen)
-	case "map":
-		kinds(*t.Key, V{}, seen)
-		kinds(*t.Elem, elemV(v, 0), seen)
+	case "string":
+		in.str = max(in.str, v.Len)
+	case "array":
+		in.array = max(in.array, t.Len)
+		for i := 0; i < min(t.Len, max(len(v.Elems), 1)); i++ {
+			in.walk(*t.Elem, elemV(v, i), inside, d+1)
+		}
 	case "struct":
-		for i, f := range t.Fields {
-			kinds(f, elemV(v, i), seen)
+		fs := fieldsOf(t)
+		in.fields = max(in.fields, len(fs))
+		for i := 0; i < min(len(fs), max(len(t.Fields), len(v.Elems))); i++ {
+			in.walk(fs[i], elemV(v, i), inside, d+1)
 		}
-	case "iface":
+	case "slice":
+		if v.Nil {
+			return
+		}
+		n := count(v, len(v.Elems))
+		in.slice = max(in.slice, n)
+		if n > len(v.Elems) && len(v.Elems) > 1 {
+			in.mixed = true
+		}
+		for i := 0; i < min(n, len(v.Elems)); i++ {
+			in.walk(*t.Elem, v.Elems[i], true, d+1)
+		}
+	case "ptr", "shared":
+		if v.Nil {
+			return
+		}
+		in.walk(*t.Elem, elemV(v, 0), true, d+1)
+	case "map":
+		in.seen["key:"+t.Key.K] = true
+		if v.Nil {
+			return
+		}
+		n := count(v, len(v.Keys))
+		in.mapN = max(in.mapN, n)
+		if n > 0 && header(*t.Key) {
+			in.nested = true
+		}
+		for i := 0; i < min(n, max(len(v.Elems), 1)); i++ {
+			in.walk(*t.Elem, elemV(v, i), true, d+1)
+		}
+	case "iface", "ifaceM":
 		if v.Dyn != nil && !v.Nil {
-			kinds(*v.Dyn, elemV(v, 0), seen)
+			in.walk(*v.Dyn, elemV(v, 0), true, d+1)
+		}
+	case "def":
+		in.seen["def:"+defs[t.Name].under.K] = true
+		in.walk(defs[t.Name].under, v, inside, d)
+	case "named1", "named2", "recA", "recB", "overlap":
+		in.nested = true
+	case "embV", "embP", "embD", "embI":
+		in.nested = true
+		in.seen["embedded"] = true
+	default:
+		if v.X != 0 {
+			in.payload++
 		}
 	}
+}
+
+func sizeClass(what string, n int) string {
+	switch {
+	case n <= 4:
+		return ""
+	case n <= 16:
+		return what + ":5..16"
+	case n <= 128:
+		return what + ":17..128"
+	case n <= 1024:
+		return what + ":129..1024"
+	case n <= 8192:
+		return what + ":1025..8192"
+	}
+	return what + ":>8192"
 }
 
 func classify(c Case) (bool, []string) {
 	if c.NilArg {
 		return false, []string{"nil-argument"}
 	}
-	seen := map[string]bool{}
-	kinds(c.T, c.V, seen)
+	in := &info{seen: map[string]bool{}}
+	in.walk(c.T, c.V, false, 1)
 	labels := []string{"top:" + c.T.K}
-	for _, k := range []string{"uint", "uintptr", "int", "map", "iface", "ptr", "slice", "string", "array", "struct", "complex64", "complex128", "named1", "named2", "shared", "recA", "recB", "overlap"} {
-		if seen[k] {
+	for _, k := range []string{"uint", "uintptr", "int", "map", "iface", "ifaceM", "def", "ptr", "slice", "string", "array", "struct", "complex64", "complex128", "named1", "named2", "shared", "recA", "recB", "overlap", "embedded",
+		"key:ptr", "key:float32", "key:float64", "key:complex64", "key:complex128", "key:iface", "key:ifaceM", "key:def", "key:array", "key:struct", "key:string", "key:bool",
+		"def:string", "def:slice", "def:map", "def:ptr", "def:array", "def:struct", "def:iface", "def:int64", "def:int8", "def:int16", "def:int32"} {
+		if in.seen[k] {
 			labels = append(labels, "has:"+k)
 		}
+	}
+	for _, l := range []string{sizeClass("slice-len", in.slice), sizeClass("map-len", in.mapN), sizeClass("array-len", in.array), sizeClass("struct-fields", in.fields), sizeClass("levels", in.depth)} {
+		if l != "" {
+			labels = append(labels, l)
+		}
+	}
+	if in.str > 12 {
+		labels = append(labels, sizeClass("string-len", in.str))
+	}
+	if in.mixed {
+		labels = append(labels, "element-mix(templates)")
+	}
+	if in.payload > 0 {
+		labels = append(labels, "scalar-payload:wide")
+	}
+	if c.Depth0 {
+		labels = append(labels, "stat:depth0")
+	}
+	if c.Opt > 0 {
+		labels = append(labels, "stat:opt"+strconv.Itoa(c.Opt))
 	}
 	if c.Class != "" {
 		labels = append(labels, "class:"+c.Class)
 	}
-	return nested(c.T, c.V, false), labels
+	return in.nested, labels
 }
 
 // ---------------------------------------------------------------- generator
 
-func genType(t *rapid.T, depth int, allowIface bool) T {
-	if depth <= 0 || (depth < 4 && gen.Chance(t, 1, 3, "leaf")) || (depth >= 4 && gen.Chance(t, 1, 12, "leaf")) {
-		if gen.Chance(t, 1, 5, "str") {
-			return T{K: "string"}
-		}
-		return T{K: scalarKinds[gen.Uniform(t, len(scalarKinds), "scalar")]}
+// Budgets: the number of nodes (elements, bytes of strings) one case may have, and the number of
+// elements the zero value of one generated TYPE may have (array lengths and field counts multiply).
+const nodeBudget, bigNodeBudget = 3000, 12000 // (the big one: one case in eight of the thorough tier)
+
+const typeBudget = 256
+
+// logUniform draws from [lo,hi]: the octave uniformly, then 2^k-1, 2^k, 2^k+1 or anything in the octave.
+func logUniform(t *rapid.T, lo, hi int, label string) int {
+	if hi <= lo {
+		return max(min(lo, hi), 0)
 	}
-	switch gen.Uniform(t, 10, "composite") {
+	kl, kh := bits.Len(uint(lo))-1, bits.Len(uint(hi))-1
+	k := kl + gen.Uniform(t, kh-kl+1, label+".octave")
+	base := 1 << uint(k)
+	n := base
+	switch gen.Uniform(t, 6, label+".at") {
 	case 0:
-		e := genType(t, depth-1, true)
-		return T{K: "array", Elem: &e, Len: gen.Uniform(t, 4, "alen")}
+		n = base - 1
+	case 1:
+	case 2:
+		n = base + 1
+	default:
+		n = base + gen.Uniform(t, base, label+".in")
+	}
+	return min(max(n, lo), hi)
+}
+
+// minCost is the number of nodes of the zero value of a type.
+func minCost(t T) int {
+	switch t.K {
+	case "array":
+		return max(1, t.Len*minCost(*t.Elem))
+	case "struct":
+		c := 0
+		for _, f := range fieldsOf(t) {
+			c += minCost(f)
+		}
+		return max(c, 1)
+	case "def":
+		return minCost(defs[t.Name].under)
+	}
+	return 1
+}
+
+func genLeaf(t *rapid.T) T {
+	switch gen.Uniform(t, 10, "leafkind") {
+	case 0, 1:
+		return T{K: "string"}
+	case 2:
+		return T{K: "def", Name: defNames[gen.Uniform(t, len(defNames), "def")]}
+	}
+	return T{K: scalarKinds[gen.Uniform(t, len(scalarKinds), "scalar")]}
+}
+
+func genType(t *rapid.T, depth int, allowIface bool, tb int) T {
+	if depth <= 0 || (depth < 4 && gen.Chance(t, 1, 3, "leaf")) || (depth >= 4 && gen.Chance(t, 1, 12, "leaf")) {
+		l := genLeaf(t)
+		if !allowIface && l.K == "def" && l.Name == "dAny" {
+			l = T{K: "def", Name: "dString"}
+		}
+		return l
+	}
+	switch gen.Uniform(t, 12, "composite") {
+	case 0:
+		n := gen.Uniform(t, 4, "alen")
+		if tb >= 8 && gen.Chance(t, 1, 3, "along") {
+			n = logUniform(t, 4, min(tb, 96), "alonglen")
+		}
+		e := genType(t, depth-1, true, tb/max(n, 1))
+		return T{K: "array", Elem: &e, Len: n}
 	case 1, 2:
-		e := genType(t, depth-1, true)
+		e := genType(t, depth-1, true, tb)
 		return T{K: "slice", Elem: &e}
 	case 3:
-		e := genType(t, depth-1, true)
-		k := genKeyType(t)
+		e := genType(t, depth-1, true, tb)
+		k := genKeyType(t, 2)
 		return T{K: "map", Key: &k, Elem: &e}
 	case 4:
-		e := genType(t, depth-1, true)
+		e := genType(t, depth-1, true, tb)
 		return T{K: "ptr", Elem: &e}
 	case 5:
 		if allowIface {
@@ -564,51 +902,137 @@ func genType(t *rapid.T, depth int, allowIface bool) T {
 		}
 		return T{K: "string"}
 	case 6:
-		return T{K: []string{"named1", "named2", "recA", "recB"}[gen.Uniform(t, 4, "named")]}
+		return T{K: []string{"named1", "named2", "recA", "recB", "embV", "embP", "embD", "embI"}[gen.Uniform(t, 8, "named")]}
 	case 7:
 		if gen.Chance(t, 1, 2, "overlap") {
 			e := T{K: scalarKinds[gen.Uniform(t, len(scalarKinds), "oscalar")]}
 			return T{K: "overlap", Elem: &e}
 		}
-		e := genType(t, depth-1, true)
+		e := genType(t, depth-1, true, tb)
 		return T{K: "shared", Elem: &e}
+	case 8:
+		if allowIface {
+			return T{K: "ifaceM", Name: mifaceNames[gen.Uniform(t, len(mifaceNames), "miface")]}
+		}
+		return T{K: "def", Name: "dStrs"}
+	case 9:
+		n := defNames[gen.Uniform(t, len(defNames), "def")]
+		if !allowIface && n == "dAny" {
+			n = "dBytes"
+		}
+		return T{K: "def", Name: n}
 	default:
 		n := gen.Uniform(t, 5, "nfields")
+		if tb >= 8 && gen.Chance(t, 1, 3, "wide") {
+			// many fields: a few field types used cyclically
+			n = logUniform(t, 5, min(tb, 48), "nwide")
+			k := 1 + gen.Uniform(t, 4, "ntempl")
+			fs := make([]T, k)
+			for i := range fs {
+				fs[i] = genType(t, depth-1, true, tb/n)
+			}
+			return T{K: "struct", Fields: fs, NF: n}
+		}
 		fs := make([]T, n)
 		for i := range fs {
-			fs[i] = genType(t, depth-1, true)
+			fs[i] = genType(t, depth-1, true, tb/max(n, 1))
 		}
 		return T{K: "struct", Fields: fs}
 	}
 }
 
-func genKeyType(t *rapid.T) T {
-	switch gen.Uniform(t, 8, "keytype") {
-	case 0, 1:
+var keyEmb = []string{"embV", "embP"}
+
+var keyScalars = []string{"int", "int8", "int16", "int32", "int64", "uint", "uint8", "uint16", "uint32", "uint64", "uintptr", "float32", "float64", "complex64", "complex128"}
+
+// genKeyType draws a comparable type: strings, every scalar kind, arrays and structs of key types,
+// pointers to anything, interface{} and method-carrying interfaces, defined types.
+func genKeyType(t *rapid.T, depth int) T {
+	c := gen.Uniform(t, 14, "keytype")
+	if depth <= 0 && (c == 3 || c == 4) {
+		c = 0
+	}
+	switch c {
+	case 0, 1, 2:
 		return T{K: "string"}
-	case 2:
-		return T{K: "bool"}
 	case 3:
-		e := T{K: "int16"}
-		return T{K: "array", Elem: &e, Len: 2}
+		e := genKeyType(t, depth-1)
+		return T{K: "array", Elem: &e, Len: gen.Uniform(t, 4, "kalen")}
 	case 4:
-		return T{K: "struct", Fields: []T{{K: "int32"}, {K: "string"}}}
+		fs := make([]T, gen.Uniform(t, 4, "knf"))
+		for i := range fs {
+			fs[i] = genKeyType(t, depth-1)
+		}
+		return T{K: "struct", Fields: fs}
 	case 5:
 		return T{K: "iface"}
-	default:
-		ints := []string{"int", "int8", "int16", "int32", "int64", "uint", "uint8", "uint16", "uint32", "uint64", "uintptr"}
-		return T{K: ints[gen.Uniform(t, len(ints), "intkey")]}
+	case 6:
+		return T{K: "ifaceM", Name: mifaceNames[gen.Uniform(t, len(mifaceNames), "kmiface")]}
+	case 7:
+		e := genType(t, 1, true, 4)
+		return T{K: "ptr", Elem: &e}
+	case 8:
+		return T{K: "def", Name: defKeyNames[gen.Uniform(t, len(defKeyNames), "kdef")]}
+	case 9:
+		return T{K: "bool"}
+	case 10:
+		return T{K: keyEmb[gen.Uniform(t, 2, "kemb")]}
 	}
+	return T{K: keyScalars[gen.Uniform(t, len(keyScalars), "kscalar")]}
 }
 
-func genValue(t *rapid.T, ty T, depth int) V {
+// genKeyValue draws the template of a key (the ordinal and the map's mask are added by buildKey).
+func genKeyValue(t *rapid.T, kt T) V {
+	v := V{I: gen.Uniform(t, 50, "ki"), Len: gen.Uniform(t, 8, "klen")}
+	if gen.Chance(t, 1, 8, "klong") {
+		v.Len = logUniform(t, 8, 300, "klonglen")
+	}
+	switch kt.K {
+	case "array":
+		for i := 0; i < kt.Len; i++ {
+			v.Elems = append(v.Elems, genKeyValue(t, *kt.Elem))
+		}
+	case "struct":
+		for _, f := range kt.Fields {
+			v.Elems = append(v.Elems, genKeyValue(t, f))
+		}
+	case "ptr":
+		v.Nil = gen.Chance(t, 1, 3, "knil")
+		v.Elems = []V{genValue(t, *kt.Elem, 1, 8)}
+	case "def":
+		return genKeyValue(t, defs[kt.Name].under)
+	}
+	return v
+}
+
+var payloads = []uint64{1 << 63, ^uint64(0), 1<<63 - 1, 1001, 1 << 31, 1 << 32, 0x7ff0000000000000, 0xfff0000000000000, 0x7ff8000000000001, 0xffffffff, 0x80, 0x8000, 0xff, 0xffffffff80000000, 0x7f8000007f800000, 0x8000000080000000}
+
+// genCount draws the element count of a non-empty container: 1..4, or (one time out of three) a
+// log-uniform count up to what the budget affords.
+func genCount(t *rapid.T, hi int) int {
+	if hi > 4 && gen.Chance(t, 1, 3, "long") {
+		return logUniform(t, 5, hi, "nlong")
+	}
+	return min(1+gen.Uniform(t, 4, "n"), max(hi, 1))
+}
+
+func genValue(t *rapid.T, ty T, depth int, budget int) V {
 	v := V{I: gen.Uniform(t, 50, "i")}
+	budget = max(budget, 1)
 	switch ty.K {
 	case "string":
 		v.Len = gen.Len(t, 12, "slen")
+		if budget > 12 && gen.Chance(t, 1, 4, "slong") {
+			v.Len = logUniform(t, 13, min(budget, 4200), "slonglen")
+		}
 	case "array":
-		for i := 0; i < ty.Len; i++ {
-			v.Elems = append(v.Elems, genValue(t, *ty.Elem, depth-1))
+		k := ty.Len
+		if k > 4 {
+			k = 1 + gen.Uniform(t, 5, "ntempl")
+			v.Rep = ty.Len
+		}
+		for i := 0; i < k; i++ {
+			v.Elems = append(v.Elems, genValue(t, *ty.Elem, depth-1, budget/max(ty.Len, 1)))
 		}
 	case "slice":
 		switch gen.Uniform(t, 4, "state") {
@@ -616,9 +1040,14 @@ func genValue(t *rapid.T, ty T, depth int) V {
 			v.Nil = true
 		case 1:
 		default:
-			n := 1 + gen.Uniform(t, 4, "n")
-			for i := 0; i < n; i++ {
-				v.Elems = append(v.Elems, genValue(t, *ty.Elem, depth-1))
+			n := genCount(t, budget/minCost(*ty.Elem))
+			k := n
+			if n > 4 {
+				k = 1 + gen.Uniform(t, 5, "ntempl")
+				v.Rep = n
+			}
+			for i := 0; i < k; i++ {
+				v.Elems = append(v.Elems, genValue(t, *ty.Elem, depth-1, budget/n))
 			}
 		}
 	case "map":
@@ -627,51 +1056,199 @@ func genValue(t *rapid.T, ty T, depth int) V {
 			v.Nil = true
 		case 1:
 		default:
-			n := 1 + gen.Uniform(t, maxKeys(*ty.Key), "n")
-			if ty.Key.K == "bool" {
-				n = min(n, 2)
+			n := genCount(t, min(keyCap(*ty.Key), budget/(1+minCost(*ty.Elem))))
+			k := n
+			if n > 4 {
+				k = 1 + gen.Uniform(t, 5, "ntempl")
+				v.Rep = n
 			}
-			for i := 0; i < n; i++ {
-				v.Keys = append(v.Keys, V{Len: gen.Uniform(t, 8, "klen")})
-				v.Elems = append(v.Elems, genValue(t, *ty.Elem, depth-1))
+			if gen.Chance(t, 1, 2, "kmask") {
+				v.X = vk.U64(gen.U64(t, "mask"))
+			}
+			for i := 0; i < k; i++ {
+				v.Keys = append(v.Keys, genKeyValue(t, *ty.Key))
+				v.Elems = append(v.Elems, genValue(t, *ty.Elem, depth-1, budget/n))
 			}
 		}
 	case "ptr", "shared":
 		if gen.Chance(t, 1, 4, "nil") {
 			v.Nil = true
 		} else {
-			v.Elems = []V{genValue(t, *ty.Elem, depth-1)}
+			v.Elems = []V{genValue(t, *ty.Elem, depth-1, budget/2)}
 		}
 	case "iface":
 		if gen.Chance(t, 1, 4, "nil") || depth <= 0 {
 			v.Nil = true
 		} else {
-			d := genType(t, depth-1, false)
+			d := genType(t, depth-1, false, min(budget, 64))
 			v.Dyn = &d
-			v.Elems = []V{genValue(t, d, depth-1)}
+			v.Elems = []V{genValue(t, d, depth-1, budget)}
 		}
+	case "ifaceM":
+		if gen.Chance(t, 1, 4, "nil") {
+			v.Nil = true
+		} else {
+			d := implTs[gen.Uniform(t, len(implTs), "impl")]
+			v.Dyn = &d
+			v.Elems = []V{genValue(t, d, depth-1, budget)}
+		}
+	case "def":
+		return genValue(t, defs[ty.Name].under, depth, budget)
 	case "struct":
+		nf := len(fieldsOf(ty))
 		for _, f := range ty.Fields {
-			v.Elems = append(v.Elems, genValue(t, f, depth-1))
+			v.Elems = append(v.Elems, genValue(t, f, depth-1, budget/max(nf, 1)))
+		}
+		if nf > len(ty.Fields) {
+			v.Rep = nf
 		}
 	case "overlap":
 		v.Len = 1 + gen.Uniform(t, 9, "n")
-		v.I = gen.Uniform(t, 12, "k")
-	case "named1", "named2", "recA", "recB":
+		if budget > 64 && gen.Chance(t, 1, 6, "olong") {
+			v.Len = logUniform(t, 10, min(budget/3, 600), "olonglen")
+		}
+		v.I = gen.Uniform(t, v.Len+3, "k")
+	case "named1", "named2", "recA", "recB", "embV", "embP", "embD", "embI":
 		v.Len = gen.Uniform(t, 6, "len")
 		v.Nil = gen.Chance(t, 1, 3, "nil")
 		n := gen.Uniform(t, 4, "n")
+		if budget > 16 && gen.Chance(t, 1, 6, "nlong") {
+			n = logUniform(t, 4, min(budget/2, 300), "nlonglen")
+			v.Len = logUniform(t, 4, min(budget/2, 300), "lenlong")
+		}
 		v.Elems = make([]V, n)
+	default:
+		// scalars: the small payload I, or (half of the time) a bit pattern: negative, huge, NaN, infinities, -0
+		if gen.Chance(t, 1, 2, "wide") {
+			if gen.Chance(t, 1, 2, "palette") {
+				v.X = vk.U64(payloads[gen.Uniform(t, len(payloads), "payload")])
+			} else {
+				v.X = vk.U64(gen.U64(t, "bits"))
+			}
+		}
 	}
 	return v
+}
+
+// genDeep draws a value nested 5..40 (thorough: 100) levels deep: a spine of pointers, slices, arrays,
+// structs, map values and interfaces in random order around a small value, with shallow siblings.
+// Three levels out of four are containers of interface{} (the TYPE stays flat, only the value is deep:
+// reflect keeps every constructed type for ever); at most 12 levels nest the types themselves.
+func genDeep(t *rapid.T) (T, V) {
+	d := logUniform(t, 5, vk.Pick(40, 100), "levels")
+	cur := genType(t, 1, false, 8)
+	cv := genValue(t, cur, 1, 16)
+	typed, shared := 0, 0
+	for j := 0; j < d; j++ {
+		w := gen.Uniform(t, 6, "wrap")
+		inner, iv := cur, cv
+		if inner.K != "iface" && (typed >= 12 || gen.Chance(t, 3, 4, "flat")) {
+			// a container of interface{} holding the spine
+			hold := V{Dyn: &inner, Elems: []V{iv}}
+			switch w {
+			case 0:
+				cur, cv = T{K: "ptr", Elem: tp("iface")}, V{Elems: []V{hold}}
+			case 1:
+				es := make([]V, 1+gen.Uniform(t, 3, "n"))
+				for i := range es {
+					es[i] = V{Nil: true}
+				}
+				es[gen.Uniform(t, len(es), "at")] = hold
+				cur, cv = T{K: "slice", Elem: tp("iface")}, V{Elems: es}
+			case 2:
+				es := []V{{Nil: true}, {Nil: true}}
+				es[gen.Uniform(t, 2, "at")] = hold
+				cur, cv = T{K: "array", Elem: tp("iface"), Len: 2}, V{Elems: es}
+			case 3:
+				cur, cv = T{K: "struct", Fields: []T{{K: "int8"}, {K: "iface"}, {K: "string"}}}, V{Elems: []V{{I: 1}, hold, {Len: gen.Uniform(t, 9, "slen"), I: 2}}}
+			case 4:
+				cur, cv = T{K: "map", Key: tp("string"), Elem: tp("iface")}, V{Keys: []V{{Len: 2}, {Len: 5, I: 3}}, Elems: []V{hold, {Nil: true}}}
+			default:
+				cur, cv = T{K: "ptr", Elem: tp("iface")}, V{Elems: []V{hold}}
+				if shared < 3 { // (two pointers to one pointee: the levels below count twice)
+					shared++
+					cur, cv = T{K: "shared", Elem: tp("iface")}, V{Elems: []V{hold}}
+				}
+			}
+			continue
+		}
+		typed++
+		if w == 5 && (inner.K == "iface" || j == d-1) {
+			w = 0
+		}
+		switch w {
+		case 0:
+			cur, cv = T{K: "ptr", Elem: &inner}, V{Elems: []V{iv}}
+		case 1:
+			n := 1 + gen.Uniform(t, 3, "n")
+			at := gen.Uniform(t, n, "at")
+			es := make([]V, n)
+			for i := range es {
+				es[i] = V{Nil: true}
+			}
+			es[at] = iv
+			cur, cv = T{K: "slice", Elem: &inner}, V{Elems: es}
+		case 2:
+			cur, cv = T{K: "array", Elem: &inner, Len: 1}, V{Elems: []V{iv}}
+		case 3:
+			n := 1 + gen.Uniform(t, 3, "nf")
+			at := gen.Uniform(t, n, "at")
+			fs, es := make([]T, n), make([]V, n)
+			for i := range fs {
+				fs[i] = genLeaf(t)
+				if fs[i].K == "def" {
+					fs[i] = T{K: "string"}
+				}
+				es[i] = genValue(t, fs[i], 0, 8)
+			}
+			fs[at], es[at] = inner, iv
+			cur, cv = T{K: "struct", Fields: fs}, V{Elems: es}
+		case 4:
+			kt := genKeyType(t, 0)
+			n := min(1+gen.Uniform(t, 2, "n"), keyCap(kt))
+			m := V{}
+			for i := 0; i < n; i++ {
+				m.Keys = append(m.Keys, genKeyValue(t, kt))
+				m.Elems = append(m.Elems, V{Nil: true})
+			}
+			m.Elems[gen.Uniform(t, n, "at")] = iv
+			cur, cv = T{K: "map", Key: &kt, Elem: &inner}, m
+		default:
+			cur, cv = T{K: "iface"}, V{Dyn: &inner, Elems: []V{iv}}
+		}
+	}
+	if cur.K == "iface" {
+		in := cur
+		cur, cv = T{K: "ptr", Elem: &in}, V{Elems: []V{cv}}
+	}
+	return cur, cv
 }
 
 func genCase(t *rapid.T) Case {
 	if gen.Chance(t, 1, 200, "nilarg") {
 		return Case{NilArg: true}
 	}
-	ty := genType(t, 4, false)
-	return Case{T: ty, V: genValue(t, ty, 4), Depth: []int{1, 2, 3, 10, 100, 1 << 20}[gen.Uniform(t, 6, "depth")], MaxItem: []int{1, 2, 3, 100, 1 << 20}[gen.Uniform(t, 5, "maxitem")]} // (callers pass positive bounds; <= 0 is undefined)
+	var c Case
+	if gen.Chance(t, 1, 10, "deep") {
+		c.T, c.V = genDeep(t)
+		c.Class = "deep"
+	} else {
+		c.T = genType(t, 4, false, typeBudget)
+		b := nodeBudget
+		if vk.Thorough() && gen.Chance(t, 1, 8, "bigbudget") {
+			b = bigNodeBudget
+		}
+		c.V = genValue(t, c.T, 4, b)
+	}
+	// depth 0 is the header line alone; other callers pass positive bounds (negative ones are undefined)
+	c.Depth = []int{1, 2, 3, 10, 100, 1 << 20}[gen.Uniform(t, 6, "depth")]
+	c.MaxItem = []int{1, 2, 3, 100, 1 << 20}[gen.Uniform(t, 5, "maxitem")]
+	c.Depth0 = gen.Chance(t, 1, 6, "depth0")
+	if gen.Chance(t, 1, 3, "opt") {
+		c.Opt = 1 + gen.Uniform(t, 4, "optkind")
+		c.AvgOf = []int{1, 2, 3, 7, 1000, 1 << 40}[gen.Uniform(t, 6, "avgof")]
+	}
+	return c
 }
 
 func TestRegress(t *testing.T) { checker.Regress(t) }
@@ -681,7 +1258,105 @@ func TestProp(t *testing.T) { checker.Prop(t, genCase) }
 // FuzzProp: the same generator driven by the native coverage-guided fuzzer (thorough tier only).
 func FuzzProp(f *testing.F) { checker.Fuzz(f, genCase) }
 
-// TestGrid: every scalar kind (and string) alone and one level inside every container.
+// sweepSizes: 2^k-1, 2^k, 2^k+1 and r more sizes inside every octave [2^k, 2^(k+1)), klo <= k <= khi
+// (the r sizes depend on the seed of the run; the case carries the size).
+func sweepSizes(klo, khi, r int, salt uint64) []int {
+	var out []int
+	for k := klo; k <= khi; k++ {
+		b := 1 << uint(k)
+		out = append(out, b-1, b, b+1)
+		for j := 0; j < r; j++ {
+			out = append(out, b+2+int(vk.Mix(vk.Seed()*1000003+salt*977+uint64(k)*31+uint64(j))%uint64(b-2)))
+		}
+	}
+	return out
+}
+
+// statVariant spreads the Stat arguments over the cases of a sweep.
+func statVariant(c Case, i int) Case {
+	c.Depth, c.MaxItem = []int{1, 2, 1 << 20}[i%3], []int{3, 1, 2, 1 << 20}[i%4]
+	if c.V.Rep > 2048 && c.MaxItem > 100 {
+		c.MaxItem = 100 // (the lines below the first are not looked at)
+	}
+	switch i % 5 {
+	case 1:
+		c.Depth0 = true
+	case 2:
+		c.Opt, c.AvgOf = 2+i%3, []int{1, 3, 1000}[i%3]
+	case 3:
+		c.Opt = 1
+	}
+	return c
+}
+
+type tv struct {
+	name string
+	t    T
+	v    []V // templates
+}
+
+var i8 = int8(0)
+
+// gridElems: element types of the container sweeps, with templates that differ element by element
+// (nil next to non-nil, empty next to long, an attribute only at index 3 mod 4).
+func gridElems() []tv {
+	return []tv{
+		{"struct-pad-string", T{K: "struct", Fields: []T{{K: "int8"}, {K: "string"}, {K: "int64"}}}, []V{{Elems: []V{{I: 1}, {Len: 5, I: 2}, {X: ^vk.U64(0)}}}, {Elems: []V{{}, {}, {}}}, {Elems: []V{{I: 3}, {Len: 40, I: 9}, {I: 1}}}}},
+		{"array-u16", T{K: "array", Elem: tp("uint16"), Len: 2}, []V{{Elems: []V{{I: 1}, {X: 0xffff}}}}},
+		{"ptr-int32", T{K: "ptr", Elem: tp("int32")}, []V{{Nil: true}, {Nil: true}, {Nil: true}, {Elems: []V{{X: 1 << 31}}}}},
+		{"ptr-string", T{K: "ptr", Elem: tp("string")}, []V{{Elems: []V{{Len: 7, I: 3}}}, {Nil: true}, {Elems: []V{{}}}}},
+		{"map-string-int8", T{K: "map", Key: tp("string"), Elem: tp("int8")}, []V{{Nil: true}, {Keys: []V{{Len: 4}, {Len: 9, I: 2}}, Elems: []V{{I: 1}, {X: 0x80}}}, {}}},
+		{"string", T{K: "string"}, []V{{}, {Len: 1, I: 1}, {Len: 20, I: 2}, {Len: 3, I: 5}, {Len: 33, I: 3}}},
+		{"iface", T{K: "iface"}, []V{{Nil: true}, {Dyn: tp("uint16"), Elems: []V{{I: 7}}}, {Dyn: tp("string"), Elems: []V{{Len: 9, I: 3}}}, {Dyn: &T{K: "ptr", Elem: tp("int8")}, Elems: []V{{Nil: true}}}}},
+		{"int32", T{K: "int32"}, []V{{I: 1}, {X: 1 << 31}, {X: ^vk.U64(0)}}},
+		{"slice-u8+ptr", T{K: "struct", Fields: []T{{K: "slice", Elem: tp("uint8")}, {K: "ptr", Elem: tp("string")}}}, []V{{Elems: []V{{Elems: make([]V, 3)}, {Elems: []V{{Len: 2}}}}}, {Elems: []V{{Nil: true}, {Nil: true}}}}},
+		{"error", T{K: "ifaceM", Name: "error"}, []V{{Dyn: &implTs[0], Elems: []V{{I: 4}}}, {Nil: true}, {Dyn: &implTs[5], Elems: []V{{Nil: true}}}, {Dyn: &implTs[4], Elems: []V{{Elems: []V{{}, {Len: 6, I: 1}, {Elems: []V{{}}}}}}}, {Dyn: &implTs[1], Elems: []V{{Len: 11, I: 2}}}}},
+		{"def-int16", T{K: "def", Name: "dInt16"}, []V{{I: 9}, {X: 0x8000}}},
+		{"def-bytes", T{K: "def", Name: "dBytes"}, []V{{Elems: make([]V, 5)}, {Nil: true}, {}}},
+	}
+}
+
+// expected structural size of one template element list, by hand for one entry (self-check of the builder)
+func TestBuilderSelfCheck(t *testing.T) {
+	type S struct {
+		F0 int8
+		F1 string
+		F2 int64
+	}
+	val, want := build(T{K: "slice", Elem: &T{K: "struct", Fields: []T{{K: "int8"}, {K: "string"}, {K: "int64"}}}}, V{Rep: 7, Elems: []V{{Elems: []V{{I: 1}, {Len: 5, I: 2}, {}}}, {}}})
+	if want != 24+7*(1+16+8)+4*5 || val.Len() != 7 || val.Index(6).Field(1).Len() != 5 || val.Index(5).Field(1).Len() != 0 {
+		t.Fatalf("builder self-check: want %d, value %v", want, val)
+	}
+	if _, ok := val.Interface().([]struct {
+		F0 int8
+		F1 string
+		F2 int64
+	}); !ok {
+		t.Fatalf("builder self-check: type %s", val.Type())
+	}
+	m, want := build(T{K: "map", Key: &T{K: "ptr", Elem: tp("float64")}, Elem: &T{K: "def", Name: "dString"}}, V{Rep: 9, Keys: []V{{Nil: true}, {Elems: []V{{X: 1}}}}, Elems: []V{{Len: 3}}})
+	if want != 8+8+8*(8+8)+9*(16+3) || m.Len() != 9 {
+		t.Fatalf("builder self-check (map): want %d, len %d", want, m.Len())
+	}
+	e, want := build(T{K: "struct", Fields: []T{{K: "ifaceM", Name: "error"}}}, V{Elems: []V{{Dyn: &implTs[5], Elems: []V{{Elems: []V{{Elems: []V{{}, {Len: 2}, {Nil: true}}}}}}}}})
+	if want != 16+8+2+16+2+8 || e.Field(0).Elem().Elem().Field(1).Len() != 2 {
+		t.Fatalf("builder self-check (error): want %d", want)
+	}
+	for l := 0; l < 70; l++ {
+		for i := 0; i < 50; i++ {
+			s, want := build(T{K: "string"}, V{Len: l, I: i})
+			if s.Len() != l || want != 16+l {
+				t.Fatalf("builder self-check (string): Len %d I %d: %q", l, i, s.String())
+			}
+		}
+	}
+	_ = S{}
+}
+
+// TestGrid: every scalar kind (and string) alone and one level inside every container; every Stat
+// argument shape on them; scalar payload extremes; defined types and method-carrying interfaces in
+// every position; every key kind; size sweeps (slices, maps, arrays, struct fields, string lengths,
+// nesting levels) over 2^k-1, 2^k, 2^k+1 and random sizes of every octave.
 func TestGrid(t *testing.T) {
 	vk.SetPhase("grid")
 	leaves := append([]string{"string"}, scalarKinds...)
@@ -713,15 +1388,53 @@ func TestGrid(t *testing.T) {
 			for _, d := range []int{1, 2} {
 				checker.Run(t, Case{T: w.t, V: w.v, Class: "grid", Depth: d, MaxItem: 3})
 			}
+			// Stat with depth 0 and with an option argument
+			checker.Run(t, Case{T: w.t, V: w.v, Class: "grid-stat", Depth0: true, MaxItem: 3})
+			for o := 1; o <= 4; o++ {
+				checker.Run(t, Case{T: w.t, V: w.v, Class: "grid-stat", Depth: 1 + o%2, Depth0: o == 4, MaxItem: 3, Opt: o, AvgOf: []int{1, 2, 3, 1000}[o-1]})
+			}
+		}
+		if k == "string" {
+			continue
+		}
+		// payload extremes: the width of a scalar does not depend on its value
+		for i, p := range payloads {
+			pv := V{X: vk.U64(p)}
+			checker.Run(t, Case{T: leaf, V: pv, Class: "grid-payload", Depth: 1, MaxItem: 1})
+			checker.Run(t, statVariant(Case{T: T{K: "slice", Elem: &leaf}, V: V{Elems: []V{lv, pv, {X: vk.U64(vk.Mix(p))}}}, Class: "grid-payload"}, i))
+			checker.Run(t, statVariant(Case{T: T{K: "struct", Fields: []T{{K: "bool"}, leaf, {K: "map", Key: &leaf, Elem: &leaf}}}, V: V{Elems: []V{{I: 1}, pv, {X: vk.U64(p), Keys: []V{{}}, Elems: []V{pv}}}}, Class: "grid-payload"}, i+1))
 		}
 	}
-	for _, kt := range []T{{K: "bool"}, {K: "int"}, {K: "uint"}, {K: "uintptr"}, {K: "iface"}, {K: "array", Elem: &T{K: "int16"}, Len: 2}, {K: "struct", Fields: []T{{K: "int32"}, {K: "string"}}}} {
+	// every key kind
+	keyTypes := []T{{K: "bool"}, {K: "int"}, {K: "uint"}, {K: "uintptr"}, {K: "iface"}, {K: "array", Elem: &T{K: "int16"}, Len: 2}, {K: "struct", Fields: []T{{K: "int32"}, {K: "string"}}},
+		{K: "string"}, {K: "int8"}, {K: "uint8"}, {K: "int16"}, {K: "uint16"}, {K: "int32"}, {K: "uint32"}, {K: "int64"}, {K: "uint64"}, {K: "float32"}, {K: "float64"}, {K: "complex64"}, {K: "complex128"},
+		{K: "ptr", Elem: tp("int32")}, {K: "ptr", Elem: tp("string")}, {K: "ptr", Elem: &T{K: "slice", Elem: tp("uint16")}}, {K: "ptr", Elem: &T{K: "ptr", Elem: tp("float64")}},
+		{K: "ifaceM", Name: "error"}, {K: "ifaceM", Name: "stringer"}, {K: "ifaceM", Name: "sizer"},
+		{K: "array", Elem: tp("string"), Len: 3}, {K: "array", Elem: tp("float64"), Len: 2}, {K: "array", Elem: &T{K: "ptr", Elem: tp("int8")}, Len: 2}, {K: "array", Elem: tp("iface"), Len: 2}, {K: "array", Elem: tp("int64"), Len: 0},
+		{K: "struct", Fields: []T{{K: "float32"}, {K: "ptr", Elem: tp("string")}, {K: "iface"}}}, {K: "struct", Fields: []T{{K: "struct", Fields: []T{{K: "bool"}, {K: "string"}}}, {K: "array", Elem: tp("uint8"), Len: 3}}}, {K: "struct"},
+	}
+	for _, n := range defKeyNames {
+		keyTypes = append(keyTypes, T{K: "def", Name: n})
+	}
+	for i, kt := range keyTypes {
 		kt := kt
-		checker.Run(t, Case{T: T{K: "map", Key: &kt, Elem: &T{K: "string"}}, V: V{Keys: []V{{Len: 1}, {Len: 2}}, Elems: []V{{Len: 3}, {Len: 0}}}, Class: "grid", Depth: 1, MaxItem: 1})
+		checker.Run(t, Case{T: T{K: "map", Key: &kt, Elem: &T{K: "string"}}, V: V{Keys: []V{{Len: 1}, {Len: 2}}, Elems: []V{{Len: 3}, {Len: 0}}, Rep: min(2, keyCap(kt))}, Class: "grid-key", Depth: 1, MaxItem: 1})
+		if i < 7 {
+			continue
+		}
+		for j, n := range []int{1, 3, 7, 12, 40} {
+			n = min(n, keyCap(kt))
+			kv := []V{{Len: 1, I: 1, Nil: true, Elems: []V{{Len: 3, I: 2, Elems: []V{{}}}, {Len: 9, I: 3}, {I: 5}}}, {Len: 12, I: 6, Nil: true, Elems: []V{{Len: 1}, {Len: 2, Nil: true}}}, {Len: 5, I: 4}}
+			c := Case{T: T{K: "map", Key: &kt, Elem: &T{K: "string"}}, V: V{Keys: kv, Elems: []V{{Len: 3}, {Len: 0}, {Len: 17, I: 2}}, Rep: n, X: vk.U64([]uint64{0, ^uint64(0), 0x8000000000000001, 0xfedcba9876543212, 3}[(i+j)%5])}, Class: "grid-key"}
+			checker.Run(t, statVariant(c, i+j))
+			c.T = T{K: "struct", Fields: []T{{K: "map", Key: &kt, Elem: &T{K: "ptr", Elem: tp("int16")}}, {K: "uint8"}}}
+			c.V = V{Elems: []V{{Keys: kv, Elems: []V{{Nil: true}, {Elems: []V{{I: 1}}}}, Rep: n, X: c.V.X}, {I: 1}}}
+			checker.Run(t, statVariant(c, i+j+1))
+		}
 	}
 	for _, ek := range []string{"int32", "uint8", "complex128"} {
 		ek := ek
-		for _, nk := range [][2]int{{8, 2}, {8, 0}, {8, 8}, {1, 1}, {5, 3}} {
+		for _, nk := range [][2]int{{8, 2}, {8, 0}, {8, 8}, {1, 1}, {5, 3}, {33, 17}, {1000, 999}, {300, 1}} {
 			for _, d := range []int{1, 2, 3} {
 				checker.Run(t, Case{T: T{K: "overlap", Elem: &T{K: ek}}, V: V{Len: nk[0], I: nk[1]}, Class: "grid-overlap", Depth: d, MaxItem: 2})
 			}
@@ -730,12 +1443,157 @@ func TestGrid(t *testing.T) {
 	for _, k := range []string{"recA", "recB", "recA", "recB"} { // same printed type name, different layouts, alternating
 		checker.Run(t, Case{T: T{K: k}, V: V{I: 3, Len: 4, Elems: make([]V, 3)}, Class: "grid", Depth: 2, MaxItem: 3})
 		checker.Run(t, Case{T: T{K: "slice", Elem: &T{K: k}}, V: V{Elems: []V{{I: 1, Len: 2, Elems: make([]V, 2)}, {I: 2, Nil: true}}}, Class: "grid", Depth: 1, MaxItem: 1})
+		checker.Run(t, Case{T: T{K: "slice", Elem: &T{K: k}}, V: V{Rep: 37, Elems: []V{{I: 1, Len: 20, Elems: make([]V, 9)}, {I: 2, Nil: true}, {I: 3, Len: 100, Elems: make([]V, 40)}}}, Class: "grid", Depth: 2, MaxItem: 100})
 	}
+
+	// structs with embedded fields, alone and as elements
+	for i, k := range embKinds {
+		for j, v := range []V{{}, {I: 1, Len: 3, Elems: make([]V, 2)}, {I: 2, Len: 40, Nil: true}, {I: 3, Len: 1, Elems: make([]V, 9)}, {I: 4, Len: 7}, {I: 5, Nil: true}} {
+			checker.Run(t, statVariant(Case{T: T{K: k}, V: v, Class: "grid-embedded"}, i+j))
+			checker.Run(t, statVariant(Case{T: T{K: "ptr", Elem: tp(k)}, V: V{Elems: []V{v}}, Class: "grid-embedded"}, i+j+1))
+		}
+		checker.Run(t, statVariant(Case{T: T{K: "slice", Elem: tp(k)}, V: V{Rep: 19, Elems: []V{{}, {I: 1, Len: 3, Elems: make([]V, 2)}, {I: 2, Len: 40, Nil: true}, {I: 3}, {I: 4, Len: 2}}}, Class: "grid-embedded"}, i))
+		if k == "embV" || k == "embP" {
+			checker.Run(t, statVariant(Case{T: T{K: "map", Key: tp(k), Elem: tp("embD")}, V: V{Rep: 9, Keys: []V{{}, {Len: 4}}, Elems: []V{{I: 3, Len: 5}, {I: 4, Nil: true}}}, Class: "grid-embedded"}, i))
+		}
+	}
+
+	// defined (named) types in every position
+	for i, n := range defNames {
+		dt := T{K: "def", Name: n}
+		dv := []V{{I: 7, Len: 6, Elems: []V{{I: 1, Len: 2}, {I: 2, Len: 9}, {I: 3}}, Keys: []V{{Len: 2}, {Len: 5}}, Dyn: tp("uint32")}, {X: vk.U64(payloads[i%len(payloads)]), Nil: true}, {I: 2, Len: 21}}
+		if goType(dt).Kind() != reflect.Interface {
+			for j := range dv {
+				checker.Run(t, statVariant(Case{T: dt, V: dv[j], Class: "grid-def"}, i+j))
+			}
+		}
+		for j, w := range []T{{K: "struct", Fields: []T{{K: "int8"}, dt, {K: "bool"}}}, {K: "slice", Elem: &dt}, {K: "array", Elem: &dt, Len: 3}, {K: "ptr", Elem: &dt}, {K: "map", Key: tp("int"), Elem: &dt}} {
+			wv := V{Elems: dv, Keys: []V{{}, {}, {}}}
+			if w.K == "struct" {
+				wv = V{Elems: []V{{}, dv[0], {I: 1}}}
+			}
+			checker.Run(t, statVariant(Case{T: w, V: wv, Class: "grid-def"}, i+j))
+			checker.Run(t, statVariant(Case{T: T{K: "slice", Elem: &w}, V: V{Rep: 21, Elems: []V{wv, {}, {Elems: dv[1:], Keys: []V{{}, {}}}}}, Class: "grid-def"}, i+j+2))
+		}
+		if goType(dt).Kind() != reflect.Interface {
+			checker.Run(t, statVariant(Case{T: T{K: "struct", Fields: []T{{K: "iface"}, {K: "iface"}}}, V: V{Elems: []V{{Dyn: &dt, Elems: dv[:1]}, {Dyn: &T{K: "ptr", Elem: &dt}, Elems: []V{{Elems: dv[:1]}}}}}, Class: "grid-def"}, i))
+		}
+	}
+	// interface types with methods: nil and every implementation, in every position
+	for i, n := range mifaceNames {
+		it := T{K: "ifaceM", Name: n}
+		var vs []V
+		for j := range implTs {
+			vs = append(vs, V{Dyn: &implTs[j], Elems: []V{{I: 3 + j, Len: 4 + j, X: vk.U64(j % 2 * 0x80000000), Elems: []V{{I: 1}, {Len: 5, I: 2}, {Elems: []V{{I: 1}}}}, Keys: []V{{Len: 3}}}}})
+			vs = append(vs, V{Dyn: &implTs[j], Elems: []V{{Nil: true, Elems: []V{{Nil: true}}}}})
+		}
+		vs = append(vs, V{Nil: true})
+		for j, v := range vs {
+			checker.Run(t, statVariant(Case{T: T{K: "struct", Fields: []T{{K: "uint8"}, it}}, V: V{Elems: []V{{I: 1}, v}}, Class: "grid-iface-methods"}, i+j))
+			checker.Run(t, statVariant(Case{T: T{K: "ptr", Elem: &it}, V: V{Elems: []V{v}}, Class: "grid-iface-methods"}, i+j+1))
+		}
+		for j, w := range []T{{K: "slice", Elem: &it}, {K: "array", Elem: &it, Len: 17}, {K: "map", Key: tp("string"), Elem: &it}, {K: "map", Key: &it, Elem: &it}} {
+			for _, rep := range []int{0, 3, 17, 50} {
+				checker.Run(t, statVariant(Case{T: w, V: V{Elems: vs, Keys: []V{{Len: 3, I: 1}, {Len: 8, I: 2}}, Rep: rep}, Class: "grid-iface-methods"}, i+j+rep))
+			}
+		}
+	}
+
+	// ---- size sweeps
+	n := 0
+	for ei, e := range gridElems() {
+		e := e
+		khi := 11
+		if e.name == "int32" || e.name == "string" {
+			khi = vk.Pick(13, 17)
+		}
+		for _, sz := range sweepSizes(2, khi, vk.Pick(2, 8), uint64(ei)) {
+			n++
+			run := func() {
+				checker.Run(t, statVariant(Case{T: T{K: "slice", Elem: &e.t}, V: V{Rep: sz, Elems: e.v, I: sz}, Class: "grid-sweep-slice"}, n))
+			}
+			if sz >= 1024 && e.name == "int32" {
+				vk.ProcsSweep(run) // meets every GOMAXPROCS setting of the second process
+			} else {
+				run()
+			}
+			if sz <= 1100 {
+				// arrays of that length; the same list one level down (field of a struct, behind a pointer)
+				checker.Run(t, statVariant(Case{T: T{K: "array", Elem: &e.t, Len: sz}, V: V{Rep: sz, Elems: e.v}, Class: "grid-sweep-array"}, n+1))
+			}
+			if sz <= 300 {
+				checker.Run(t, statVariant(Case{T: T{K: "struct", Fields: []T{{K: "bool"}, {K: "ptr", Elem: &T{K: "slice", Elem: &e.t}}, {K: "array", Elem: &e.t, Len: sz}}}, V: V{Elems: []V{{I: 1}, {Elems: []V{{Rep: sz, Elems: e.v}}}, {Rep: sz, Elems: e.v}}}, Class: "grid-sweep-nested"}, n+2))
+				// a struct of that many fields (field types used cyclically)
+				checker.Run(t, statVariant(Case{T: T{K: "struct", Fields: []T{{K: "int8"}, e.t, {K: "string"}, e.t, {K: "slice", Elem: &e.t}}, NF: sz}, V: V{Rep: sz, Elems: []V{{I: 1}, e.v[0], {Len: 4, I: 2}, e.v[len(e.v)-1], {Elems: e.v}}}, Class: "grid-sweep-fields"}, n+3))
+			}
+		}
+	}
+	sweepKeys := []T{{K: "string"}, {K: "int"}, {K: "int8"}, {K: "float64"}, {K: "complex64"}, {K: "ptr", Elem: tp("string")}, {K: "iface"}, {K: "ifaceM", Name: "error"}, {K: "struct", Fields: []T{{K: "int32"}, {K: "string"}}}, {K: "array", Elem: tp("float32"), Len: 2}, {K: "def", Name: "dString"}, {K: "def", Name: "duration"}}
+	elems := gridElems()
+	for ki := range sweepKeys {
+		kt := sweepKeys[ki]
+		for si, sz := range sweepSizes(2, vk.Pick(10, 12), vk.Pick(2, 6), 100+uint64(ki)) {
+			if sz > keyCap(kt) {
+				continue
+			}
+			n++
+			e := elems[(ki+si)%len(elems)]
+			kv := []V{{Len: 1, I: 1, Elems: []V{{Len: 3, I: 2}, {Len: 9, I: 3}}}, {Len: 12, I: 6, Nil: true}, {Len: 5, I: 4, Elems: []V{{Len: 7}}}, {Len: 70, I: 3}}
+			checker.Run(t, statVariant(Case{T: T{K: "map", Key: &kt, Elem: &e.t}, V: V{Rep: sz, Keys: kv, Elems: e.v, X: vk.U64([]uint64{0, ^uint64(0), 0x8000000000000002, 0x7fffffffffffff01}[n%4])}, Class: "grid-sweep-map"}, n))
+		}
+	}
+	// string lengths: every octave, every filler (multi-byte content up to the end), alone and inside a struct
+	for si, sz := range sweepSizes(2, vk.Pick(14, 17), vk.Pick(3, 10), 200) {
+		for _, i := range []int{si % 50, (si + 17) % 50} {
+			checker.Run(t, Case{T: T{K: "string"}, V: V{Len: sz, I: i}, Class: "grid-sweep-string", Depth: 1, MaxItem: 1})
+			if sz <= 5000 {
+				checker.Run(t, statVariant(Case{T: T{K: "struct", Fields: []T{{K: "int8"}, {K: "string"}, {K: "slice", Elem: tp("string")}, {K: "map", Key: tp("string"), Elem: tp("string")}}}, V: V{Elems: []V{{I: 1}, {Len: sz, I: i}, {Elems: []V{{Len: 2}, {Len: sz, I: i + 1}}}, {Keys: []V{{Len: sz, I: i}}, Elems: []V{{Len: sz + 1, I: i + 2}}}}}, Class: "grid-sweep-string"}, si))
+			}
+		}
+	}
+	// nesting levels: chains of one wrapper kind and of all of them in rotation, 5..64 (thorough: 200) levels
+	levels := []int{5, 6, 7, 8, 9, 10, 11, 12, 13, 15, 16, 17, 24, 31, 32, 33, 48, 64}
+	if vk.Thorough() {
+		levels = append(levels, 100, 128, 200)
+	}
+	for _, d := range levels {
+		for w := 0; w < 8; w++ {
+			cur, cv := T{K: "string"}, V{Len: 3, I: 1}
+			for j := 0; j < d; j++ {
+				inner, iv := cur, cv
+				k := w
+				if w == 7 {
+					k = (j + d) % 7
+				}
+				if k == 5 && (inner.K == "iface" || j == d-1) {
+					k = 0
+				}
+				switch k {
+				case 0:
+					cur, cv = T{K: "ptr", Elem: &inner}, V{Elems: []V{iv}}
+				case 1:
+					cur, cv = T{K: "slice", Elem: &inner}, V{Elems: []V{{Nil: true}, iv}}
+				case 2:
+					cur, cv = T{K: "array", Elem: &inner, Len: 1}, V{Elems: []V{iv}}
+				case 3:
+					cur, cv = T{K: "struct", Fields: []T{{K: "int8"}, inner, {K: "string"}}}, V{Elems: []V{{I: 1}, iv, {Len: 2}}}
+				case 4:
+					cur, cv = T{K: "map", Key: tp("string"), Elem: &inner}, V{Keys: []V{{Len: 2}, {Len: 3}}, Elems: []V{iv, {Nil: true}}}
+				case 5:
+					cur, cv = T{K: "iface"}, V{Dyn: &inner, Elems: []V{iv}}
+				default: // []interface{} holding []interface{} ...: the type stays flat, only the value is deep
+					cur, cv = T{K: "slice", Elem: tp("iface")}, V{Elems: []V{{Dyn: &inner, Elems: []V{iv}}, {Nil: true}}}
+				}
+			}
+			checker.Run(t, statVariant(Case{T: cur, V: cv, Class: "grid-levels"}, d+w))
+		}
+	}
+
 	// large containers (size thresholds of any bulk fast path)
 	for _, n := range []int{1023, 1024, 1025, 70001} {
 		for _, ek := range []string{"int32", "uint8", "string", "iface"} {
 			ek := ek
-			elems := make([]V, n)
+			elems := make([]V, 35)
 			for i := range elems {
 				elems[i] = V{I: i % 50, Len: i % 7}
 				if ek == "iface" {
@@ -745,11 +1603,20 @@ func TestGrid(t *testing.T) {
 					}
 				}
 			}
-			checker.Run(t, Case{T: T{K: "slice", Elem: &T{K: ek}}, V: V{Elems: elems}, Class: "grid-large", Depth: 1, MaxItem: 2})
+			run := func() {
+				checker.Run(t, Case{T: T{K: "slice", Elem: &T{K: ek}}, V: V{Elems: elems, Rep: n}, Class: "grid-large", Depth: 1, MaxItem: 2})
+			}
+			if n < 2000 || ek == "uint8" {
+				vk.ProcsSweep(run)
+			} else {
+				run()
+			}
 		}
 		checker.Run(t, Case{T: T{K: "string"}, V: V{Len: n}, Class: "grid-large"})
 	}
 	checker.Run(t, Case{T: T{K: "named1"}, V: V{I: 3, Len: 4, Elems: make([]V, 3)}, Class: "grid", Depth: 2, MaxItem: 3})
 	checker.Run(t, Case{T: T{K: "named2"}, V: V{I: 2, Len: 4, Elems: make([]V, 2)}, Class: "grid", Depth: 2, MaxItem: 3})
-	vk.MarkExhaustive("every scalar kind and string: alone, in structs, slices (nil/empty/non-empty), arrays, map values, pointers (nil/non-nil), interfaces (nil/non-nil), shared pointers; every key kind")
+	checker.Run(t, Case{T: T{K: "named1"}, V: V{I: 3, Len: 500, Elems: make([]V, 77)}, Class: "grid", Depth: 2, MaxItem: 3})
+	checker.Run(t, Case{T: T{K: "named2"}, V: V{I: 2, Len: 129, Elems: make([]V, 90)}, Class: "grid", Depth: 2, MaxItem: 3})
+	vk.MarkExhaustive("every scalar kind and string: alone, in structs, slices (nil/empty/non-empty), arrays, map values, pointers (nil/non-nil), interfaces (nil/non-nil), shared pointers, each with Stat depth 0/1/2 and every option shape; 16 payload bit patterns per scalar kind; every key kind; every defined type and every implementation of every method-carrying interface in every position")
 }
